@@ -743,15 +743,27 @@ def run(chk):
                  "`_search_end` (min / max with the freed range, the incremental shortcut included): the range that alloc() scans always contains "
                  "the units that were just freed - a full block has _search_end = 0, and a path that moves only _search_start leaves its tail "
                  "unreachable")
-    fw = chk.facts(UNIT, funcs=r"asmjit::JitAllocatorBlock::(mark_released_area|mark_shrunk_area)$")
+    fw_all = chk.facts(UNIT, funcs=r"asmjit::JitAllocatorBlock::[a-z_0-9]+$")
+    blk_methods = {g.name: g for g in cfg.load_functions(fw_all)}
     nw = 0
-    for gw in cfg.load_functions(fw):
+    _assigned_memo = {}
+
+    def assigned_on_every_path(gw, depth=0):
+        """fields of the search window that every path of gw to its exit assigns (directly or through another member function)"""
+        if gw.name in _assigned_memo:
+            return _assigned_memo[gw.name]
+        _assigned_memo[gw.name] = set()
+
         def w_elem(eid, x, gw=gw):
             if x["k"] == "binop" and x["op"].endswith("=") and x["op"] not in ("==", "!=", "<=", ">="):
                 t = re.sub(r"\s+", "", gw.text(x["lhs"]))
                 for f_ in ("_search_start", "_search_end"):
                     if t.endswith(f_):
                         return ((("assigned", f_),), ())
+            if x["k"] in ("mcall", "call") and x.get("callee") in blk_methods and x.get("callee") != gw.name and depth < 3:
+                sub = assigned_on_every_path(blk_methods[x["callee"]], depth + 1)
+                if sub:
+                    return (tuple(("assigned", f_) for f_ in sorted(sub)), ())
             return None
         mw = Must(gw, w_elem, None)
         exits = [b for b in gw.preds.get(gw.exit, [])] if gw.exit is not None else []      # (aborting assertion blocks never reach the exit)
@@ -761,6 +773,10 @@ def run(chk):
             if s_here is None:
                 continue
             st = set(s_here) if st is None else (st & set(s_here))
+        _assigned_memo[gw.name] = {f[1] for f in (st or set()) if f[0] == "assigned"}
+        return _assigned_memo[gw.name]
+    for gw in [g for n_, g in sorted(blk_methods.items()) if n_.endswith(("::mark_released_area", "::mark_shrunk_area"))]:
+        st = {("assigned", f_) for f_ in assigned_on_every_path(gw)}
         for f_ in ("_search_start", "_search_end"):
             nw += 1
             chk.ob(RW, "%s|%s" % (gw.name.replace("asmjit::", ""), f_), ("assigned", f_) in (st or set()), loc="%s:%d" % (UNIT, gw.line),
